@@ -23,7 +23,7 @@ mod decaf377_affine {
     pub type AffinePoint = <decaf377::Element as ark_ec::CurveGroup>::Affine;
 }
 
-pub const NREG: usize = 12;
+pub const NREG: usize = 14;
 
 pub fn fq_bytes(x: &Fq) -> Vec<u8> {
     x.to_bytes_le().to_vec()
@@ -466,6 +466,49 @@ pub const ID_FORMS: &[(&str, IdF)] = &[
     ("IDENTITY==E", |a| Element::IDENTITY == a),
 ];
 
+/// operators that RETURN an affine point, observed directly (no conversion through Element in between)
+#[cfg(feature = "ark")]
+pub const APROD_FORMS: &[(&str, &str, fn(AffinePoint, AffinePoint) -> AffinePoint)] = &[
+    ("add", "&A+&A", |a, b| &a + &b),
+    ("add", "&A+A", |a, b| &a + b),
+    ("add", "A+=&A", |mut a, b| {
+        a += &b;
+        a
+    }),
+    ("add", "A+=A", |mut a, b| {
+        a += b;
+        a
+    }),
+    ("sub", "&A-&A", |a, b| &a - &b),
+    ("sub", "A-&A", |a, b| a - &b),
+    ("sub", "&A-A", |a, b| &a - b),
+    ("sub", "A-A", |a, b| a - b),
+    ("sub", "A-=&A", |mut a, b| {
+        a -= &b;
+        a
+    }),
+    ("sub", "A-=A", |mut a, b| {
+        a -= b;
+        a
+    }),
+];
+#[cfg(feature = "ark")]
+pub const APRED_FORMS: &[(&str, fn(AffinePoint) -> bool)] = &[
+    ("A.is_zero", |p| AffineRepr::is_zero(&p)),
+    ("A==A::zero()", |p| p == <AffinePoint as AffineRepr>::zero()),
+    ("A::zero()==A", |p| <AffinePoint as AffineRepr>::zero() == p),
+    ("A==A::default()", |p| p == AffinePoint::default()),
+    ("Element::from(A).is_identity", |p| el(p).is_identity()),
+    ("A.into_group().is_zero", |p| p.into_group().is_zero()),
+    ("hash(A)==hash(A::zero())", |p| {
+        use std::hash::{Hash, Hasher};
+        let mut h1 = std::collections::hash_map::DefaultHasher::new();
+        p.hash(&mut h1);
+        let mut h2 = std::collections::hash_map::DefaultHasher::new();
+        <AffinePoint as AffineRepr>::zero().hash(&mut h2);
+        h1.finish() == h2.finish()
+    }),
+];
 #[cfg(feature = "ark")]
 pub const HASH_FORMS: &[(&str, fn(Element) -> u64)] = &[
     ("Element", |a| {
@@ -557,6 +600,24 @@ pub fn scalar_alphabet() -> Vec<Vec<u8>> {
     for k in [1usize, 31, 32, 63, 64, 65, 127, 128, 191, 192, 249, 250] {
         v.push(le_pow2(k, 32));
         v.push(le_sub_small(&le_pow2(k, 32), 1));
+    }
+    // word patterns (what digit recodings -- NAF, windows, k + 2k -- are sensitive to): one 64-bit limb equal to
+    // 0x5555.., 0xAAAA.., 0x8000..0, 0x7FFF..F, the limb below it with its top bit clear and set, fixed filler
+    // elsewhere, top byte small so that the value stays below r
+    let filler: [u8; 32] = [0x3b, 0xe1, 0x07, 0x9c, 0x52, 0xd4, 0x6a, 0x11, 0xc8, 0x2f, 0x95, 0x70, 0x0d, 0xb6, 0x43, 0xea,
+                            0x19, 0x84, 0xf2, 0x5d, 0xa7, 0x30, 0xcb, 0x66, 0x08, 0xd9, 0x71, 0xbe, 0x24, 0x9a, 0x4f, 0x02];
+    for limb in 0..4usize {
+        for pat in [[0x55u8; 8], [0xaa; 8], [0, 0, 0, 0, 0, 0, 0, 0x80], [0xff, 0xff, 0xff, 0xff, 0xff, 0xff, 0xff, 0x7f]] {
+            for below_top in [0x00u8, 0x80] {
+                let mut x = filler.to_vec();
+                x[8 * limb..8 * limb + 8].copy_from_slice(&pat);
+                if limb > 0 {
+                    x[8 * limb - 1] = (x[8 * limb - 1] & 0x7f) | below_top;
+                }
+                x[31] &= 0x03;
+                v.push(x);
+            }
+        }
     }
     v
 }
@@ -782,6 +843,26 @@ impl<'a> Machine<'a> {
         let ev = json!({"k":"eq","form":form,"a":a,"b":b});
         emit(self.out, finish(ev, r.map(|o| json!({"out":o}))));
     }
+    /// every predicate (and the compressed serialisation) on the affine point returned by one affine operator
+    #[cfg(feature = "ark")]
+    pub fn aobs(&mut self, idx: usize, a: usize, b: usize) {
+        let (op, form, f) = APROD_FORMS[idx % APROD_FORMS.len()];
+        let (x, y) = (aff(self.regs[a]), aff(self.regs[b]));
+        for (pred, g) in APRED_FORMS.iter() {
+            let r = guarded(|| g(f(x, y)));
+            let ev = json!({"k":"aobs","op":op,"form":form,"pred":pred,"a":a,"b":b});
+            emit(self.out, finish(ev, r.map(|o| json!({"out":o}))));
+        }
+        let r = guarded(|| {
+            let mut v = Vec::new();
+            f(x, y).serialize_compressed(&mut v).unwrap();
+            v
+        });
+        let ev = json!({"k":"aenc","op":op,"form":form,"a":a,"b":b});
+        emit(self.out, finish(ev, r.map(|o| json!({"out":o}))));
+    }
+    #[cfg(not(feature = "ark"))]
+    pub fn aobs(&mut self, _idx: usize, _a: usize, _b: usize) {}
     pub fn isid(&mut self, idx: usize, a: usize) {
         let (form, f) = ID_FORMS[idx % ID_FORMS.len()];
         let x = self.regs[a];
@@ -991,9 +1072,10 @@ pub fn program(m: &mut Machine, r: &mut ChaCha20Rng, len: usize, heavy_mul: bool
     }
 }
 
-/// the structured element alphabet, loaded into registers 0..11:
+/// the structured element alphabet, loaded into registers 0..13:
 /// O, O' = (0,-1), B, B + T2 = (-x,-y), -B = (-x,y), -B + T2 = (x,-y), 2B (Z != 1), an Elligator output E,
-/// E + T2, -E + T2, a rescaled B, a small multiple of E (Z != 1)
+/// E + T2, -E + T2, a rescaled B, a small multiple kE of E (Z != 1), kE - kE (the identity with Z != 1) and its
+/// other representative
 pub fn load_alphabet(m: &mut Machine, r: &mut ChaCha20Rng) {
     m.reset();
     m.konst(0, 0);
@@ -1012,6 +1094,10 @@ pub fn load_alphabet(m: &mut Machine, r: &mut ChaCha20Rng) {
     m.rescale(&(lam + Fq::from(2u64)), 2, 10);
     let k = [3u8 + (below(r, 200) as u8)];
     m.mul(0, &k, 7, 11);
+    // the identity reached by arithmetic (Z != 1), and its other representative in another scaling
+    let sub = BIN_FORMS.iter().position(|f| f.0 == "sub").unwrap_or(0);
+    m.bin(sub, 11, 11, 12);
+    m.torque(12, 13);
 }
 
 pub fn record(suite: &str, n: usize, seed: u64, arg: &str, out: &mut dyn Write) -> bool {
@@ -1111,6 +1197,17 @@ pub fn record(suite: &str, n: usize, seed: u64, arg: &str, out: &mut dyn Write) 
                     for b in 0..NREG {
                         for f in 0..EQ_FORMS.len() {
                             m.eq(f, a, b);
+                        }
+                        // affine-typed operators observed directly: one rotating operator per pair, every operator
+                        // when the result is the identity
+                        let ident = (m.regs[a] + m.regs[b]).is_identity() || (m.regs[a] - m.regs[b]).is_identity();
+                        if ident {
+                            for f in 0..10 {
+                                m.aobs(f, a, b);
+                            }
+                        } else {
+                            let f = m.rot(10);
+                            m.aobs(f, a, b);
                         }
                     }
                 }
@@ -1263,6 +1360,35 @@ pub fn record(suite: &str, n: usize, seed: u64, arg: &str, out: &mut dyn Write) 
             }
         }
         // Elligator on inputs given in a file (one 32-byte array per line; generated by TLC)
+        // constructed inputs through the calls both builds share, each followed by the encoding of the result
+        // (C12: a line is a byte array = Elligator input, or {"b": bytes} = decoder input)
+        "equivfile" => {
+            let mut m = Machine::new(out);
+            m.reset();
+            let text = std::fs::read_to_string(arg).expect("input file");
+            let dec0 = DEC32_FORMS.iter().position(|f| f.0 == "vartime_decompress").unwrap();
+            let enc0 = ENC_FORMS.iter().position(|f| f.0 == "vartime_compress").unwrap();
+            for (i, line) in text.lines().enumerate() {
+                if i % 60 == 59 {
+                    m.reset();
+                }
+                let v: Value = serde_json::from_str(line).expect("json");
+                let dst = i % NREG;
+                if v.is_array() {
+                    let x: Vec<u8> = serde_json::from_value(v).expect("bytes");
+                    m.ell(&fq_from(&x), dst);
+                    m.enc(enc0, dst);
+                    m.h2c(&fq_from(&x), &Fq::from(i as u64), (dst + 1) % NREG);
+                    m.enc(enc0, (dst + 1) % NREG);
+                } else {
+                    let b: Vec<u8> = serde_json::from_value(v["b"].clone()).expect("bytes");
+                    if b.len() == 32 {
+                        m.decode(dec0, &b, dst);
+                        m.enc(enc0, dst);
+                    }
+                }
+            }
+        }
         "ellfile" => {
             let mut m = Machine::new(out);
             m.reset();
@@ -1811,6 +1937,106 @@ fn ctor_suite(m: &mut Machine, r: &mut ChaCha20Rng, n: usize) {
             put(m, name, &arg, res, idx);
         }
     }
+    // every mode of the stream deserialisers (compressed / uncompressed x validated / unchecked, single values and
+    // Vec containers) on: valid encodings, invalid encodings, and 64-byte x || y strings of valid representatives,
+    // of on-curve points OUTSIDE the group (Q + T4 = (i y, i x), i^2 = -1) and of off-curve pairs.  A mode that is
+    // not offered ("not implemented" panic) hands out nothing, which is admissible; whatever IS handed out must be
+    // a valid element.
+    m.reset();
+    load_alphabet(m, r);
+    {
+        use ark_ff::Field;
+        use ark_serialize::{Compress, Validate};
+        let i_unit = (-Fq::ONE).sqrt().expect("q = 1 mod 4");
+        let mut inputs: Vec<(String, Vec<u8>)> = Vec::new();
+        let reps: Vec<Element> = m.regs.to_vec();
+        for (j, e) in reps.iter().enumerate() {
+            let enc = e.vartime_compress().0.to_vec();
+            inputs.push(("valid32".into(), enc.clone()));
+            let mut neg = (-e.vartime_compress_to_field()).to_bytes_le().to_vec();
+            neg.truncate(32);
+            inputs.push(("negated32".into(), neg));
+            let mut plus = enc.clone();
+            plus[0] ^= 1 << (j % 8);
+            inputs.push(("flipped32".into(), plus));
+            let c = e.verif_raw();
+            if let Some(zi) = c[2].inverse() {
+                let (x, y) = (c[0] * zi, c[1] * zi);
+                let cat = |a: Fq, b: Fq| -> Vec<u8> {
+                    let mut v = a.to_bytes_le().to_vec();
+                    v.extend_from_slice(&b.to_bytes_le());
+                    v
+                };
+                inputs.push(("xy_valid".into(), cat(x, y)));
+                inputs.push(("xy_out_of_group".into(), cat(i_unit * y, i_unit * x)));
+                inputs.push(("xy_out_of_group".into(), cat(-(i_unit * y), i_unit * x)));
+                inputs.push(("xy_off_curve".into(), cat(x + Fq::ONE, y)));
+            }
+        }
+        let modes = [(Compress::Yes, Validate::Yes, "C,V"), (Compress::Yes, Validate::No, "C,-"), (Compress::No, Validate::Yes, "U,V"), (Compress::No, Validate::No, "U,-")];
+        let classify = |res: Result<Result<Option<Element>, String>, String>| -> Result<Option<Element>, String> {
+            match res {
+                Ok(Ok(x)) => Ok(x),
+                Ok(Err(_)) => Ok(None),
+                Err(p) if p.contains("not implemented") => Ok(None),
+                Err(p) => Err(p),
+            }
+        };
+        let mut idx = 0usize;
+        for (class, bytes) in inputs.iter() {
+            for (cm, vm, mname) in modes.iter() {
+                idx += 1;
+                if idx % 150 == 149 {
+                    m.reset();
+                }
+                let r1 = guarded(|| Element::deserialize_with_mode(&bytes[..], *cm, *vm).map(Some).map_err(|e| format!("{:?}", e)));
+                put(m, &format!("Element::deserialize_with_mode[{}] {}", mname, class), bytes, classify(r1), idx);
+                let r2 = guarded(|| AffinePoint::deserialize_with_mode(&bytes[..], *cm, *vm).map(|a| Some(el(a))).map_err(|e| format!("{:?}", e)));
+                put(m, &format!("AffinePoint::deserialize_with_mode[{}] {}", mname, class), bytes, classify(r2), idx + 1);
+            }
+        }
+        // containers: three items, the constructed one in the middle
+        m.reset();
+        let first32 = inputs.iter().find(|x| x.0 == "valid32").map(|x| x.1.clone()).unwrap_or_default();
+        let first64 = inputs.iter().find(|x| x.0 == "xy_valid").map(|x| x.1.clone()).unwrap_or_default();
+        for (class, bytes) in inputs.iter() {
+            for (cm, vm, mname) in modes.iter() {
+                let honest = if bytes.len() == 32 { &first32 } else { &first64 };
+                let mut buf = 3u64.to_le_bytes().to_vec();
+                buf.extend_from_slice(honest);
+                buf.extend_from_slice(bytes);
+                buf.extend_from_slice(honest);
+                let rv = guarded(|| Vec::<AffinePoint>::deserialize_with_mode(&buf[..], *cm, *vm).map_err(|e| format!("{:?}", e)));
+                let items: Vec<Result<Option<Element>, String>> = match rv {
+                    Ok(Ok(v)) => v.into_iter().map(|a| Ok(Some(el(a)))).collect(),
+                    Ok(Err(_)) => vec![Ok(None)],
+                    Err(p) if p.contains("not implemented") => vec![Ok(None)],
+                    Err(p) => vec![Err(p)],
+                };
+                for it in items {
+                    idx += 1;
+                    if idx % 150 == 149 {
+                        m.reset();
+                    }
+                    put(m, &format!("Vec<AffinePoint>::deserialize_with_mode[{}] {}", mname, class), bytes, it, idx);
+                }
+                let rv = guarded(|| Vec::<Element>::deserialize_with_mode(&buf[..], *cm, *vm).map_err(|e| format!("{:?}", e)));
+                let items: Vec<Result<Option<Element>, String>> = match rv {
+                    Ok(Ok(v)) => v.into_iter().map(|a| Ok(Some(a))).collect(),
+                    Ok(Err(_)) => vec![Ok(None)],
+                    Err(p) if p.contains("not implemented") => vec![Ok(None)],
+                    Err(p) => vec![Err(p)],
+                };
+                for it in items {
+                    idx += 1;
+                    if idx % 150 == 149 {
+                        m.reset();
+                    }
+                    put(m, &format!("Vec<Element>::deserialize_with_mode[{}] {}", mname, class), bytes, it, idx);
+                }
+            }
+        }
+    }
     // batch conversions of mixed representatives
     m.reset();
     load_alphabet(m, r);
@@ -1935,6 +2161,33 @@ pub fn replay(plan: &str, out: &mut dyn Write) {
                     "mul" => m.mul(form, &bytes, a, dst),
                     "mulbig" => m.mulbig(form, &bytes, a, dst),
                     "conv" => m.conv(form, a, dst),
+                    "sum" | "msm" => {
+                        let srcs: Vec<usize> = st.get("srcs").and_then(|x| serde_json::from_value(x.clone()).ok()).unwrap_or_default();
+                        let ks: Vec<Vec<u8>> = st.get("ks").and_then(|x| serde_json::from_value(x.clone()).ok()).unwrap_or_default();
+                        if op == "sum" && !SUM_FORMS.is_empty() {
+                            m.sum(form, &srcs, dst)
+                        } else if op == "msm" && !MSM_FORMS.is_empty() {
+                            m.msm(form, &ks, &srcs, dst)
+                        } else {
+                            // the minimal build has no iterator-sum / MSM entry points: the same value through the
+                            // operators it does have
+                            let v: Vec<Element> = srcs.iter().map(|i| m.regs[*i]).collect();
+                            let r = guarded(|| {
+                                let mut acc = Element::IDENTITY;
+                                for (i, e) in v.iter().enumerate() {
+                                    acc = if op == "sum" { acc + *e } else { acc + (MUL_FORMS[0].1)(*e, fr_from(&ks[i])) };
+                                }
+                                acc
+                            });
+                            if let Ok(e) = r {
+                                m.regs[dst] = e;
+                            }
+                        }
+                    }
+                    "h2c" => {
+                        let b2: Vec<u8> = st.get("bytes2").and_then(|x| serde_json::from_value(x.clone()).ok()).unwrap_or_default();
+                        m.h2c(&fq_from(&bytes), &fq_from(&b2), dst)
+                    }
                     "enc" => {
                         let bts = guarded(|| (ENC_FORMS[form % ENC_FORMS.len()].1)(m.regs[a]));
                         got = match bts {
@@ -1959,7 +2212,7 @@ pub fn replay(plan: &str, out: &mut dyn Write) {
                     _ => got = json!({"unknown":op}),
                 }
                 // every step also reports the encoding of its destination register
-                if matches!(op, "const" | "torque" | "rescale" | "dec" | "ell" | "add" | "sub" | "neg" | "dbl" | "mul" | "mulbig" | "conv") {
+                if matches!(op, "const" | "torque" | "rescale" | "dec" | "ell" | "add" | "sub" | "neg" | "dbl" | "mul" | "mulbig" | "conv" | "sum" | "msm" | "h2c") {
                     let e = m.regs[dst];
                     got["enc"] = json!(guarded(|| e.vartime_compress().0.to_vec()).unwrap_or_default());
                 }
